@@ -167,27 +167,39 @@ func runC17(c *Ctx) {
 		return
 	}
 	pe := &runePredEval{pk: pk}
-	var mapLit *ast.FuncLit
+	// the mapper: a function literal, or a named function of the package
+	var mapType *ast.FuncType
+	var mapBody *ast.BlockStmt
+	var mapPos token.Pos
 	ast.Inspect(apDecl, func(n ast.Node) bool {
 		if call, ok := n.(*ast.CallExpr); ok {
 			if fn := calleeFunc(info, call); fn != nil && fn.FullName() == "strings.Map" && len(call.Args) == 2 {
-				mapLit, _ = ast.Unparen(call.Args[0]).(*ast.FuncLit)
+				switch m := ast.Unparen(call.Args[0]).(type) {
+				case *ast.FuncLit:
+					mapType, mapBody, mapPos = m.Type, m.Body, m.Pos()
+				case *ast.Ident:
+					if f, ok := info.Uses[m].(*types.Func); ok {
+						if fd := funcDecl(pk, f); fd != nil && fd.Body != nil {
+							mapType, mapBody, mapPos = fd.Type, fd.Body, fd.Pos()
+						}
+					}
+				}
 			}
 		}
 		return true
 	})
-	if mapLit == nil {
-		r.Finding("H2", "appendPath/mapper", c.P.pos(apDecl.Pos()), "variable names are no longer filtered through strings.Map with a literal mapper")
+	if mapBody == nil {
+		r.Undecided("H2", "appendPath/mapper", c.P.pos(apDecl.Pos()), "variable names are no longer filtered through strings.Map with a mapper this rule can read (a function literal or a named function of the package)")
 	} else {
-		out, ok, why := mapperImage(pe, mapLit)
+		out, ok, why := mapperImage(pe, mapType, mapBody)
 		if !ok {
-			r.Undecided("H2", "appendPath/mapper", c.P.pos(mapLit.Pos()), "mapper shape not recognised: "+why)
+			r.Undecided("H2", "appendPath/mapper", c.P.pos(mapPos), "mapper shape not recognised: "+why)
 		} else {
 			extra := out.minus(ident)
 			if len(extra) == 0 {
-				r.Discharge("H2", "appendPath/mapper-image", c.P.pos(mapLit.Pos()), fmt.Sprintf("image of the mapper = %s ⊆ [A-Za-z0-9_] (or dropped)", out))
+				r.Discharge("H2", "appendPath/mapper-image", c.P.pos(mapPos), fmt.Sprintf("image of the mapper = %s ⊆ [A-Za-z0-9_] (or dropped)", out))
 			} else {
-				r.Finding("H2", "appendPath/mapper-image", c.P.pos(mapLit.Pos()), fmt.Sprintf("mapper can emit %s into a shell variable name", extra))
+				r.Finding("H2", "appendPath/mapper-image", c.P.pos(mapPos), fmt.Sprintf("mapper can emit %s into a shell variable name", extra))
 			}
 		}
 	}
@@ -286,11 +298,11 @@ func returnLeaves(v ssa.Value, ok func(ssa.Value) bool) []ssa.Value {
 //	if P(r) { return r } else if Q(r) { return -1 } ... return '_'
 //
 // can return (excluding -1).
-func mapperImage(pe *runePredEval, lit *ast.FuncLit) (runeSet, bool, string) {
-	if lit.Type.Params.NumFields() != 1 || len(lit.Type.Params.List[0].Names) != 1 {
+func mapperImage(pe *runePredEval, ftype *ast.FuncType, body *ast.BlockStmt) (runeSet, bool, string) {
+	if ftype.Params.NumFields() != 1 || len(ftype.Params.List[0].Names) != 1 {
 		return nil, false, "not a one-parameter function"
 	}
-	arg := pe.pk.TypesInfo.Defs[lit.Type.Params.List[0].Names[0]]
+	arg := pe.pk.TypesInfo.Defs[ftype.Params.List[0].Names[0]]
 	var image runeSet
 	var walk func(stmts []ast.Stmt, reach runeSet) (runeSet, bool, string) // returns the set that falls through
 	retVal := func(e ast.Expr, reach runeSet) (bool, string) {
@@ -345,13 +357,52 @@ func mapperImage(pe *runePredEval, lit *ast.FuncLit) (runeSet, bool, string) {
 					}
 				}
 				reach = thenOut.union(elseOut)
+			case *ast.SwitchStmt:
+				// tagless switch: clauses tried in order, default last
+				if s.Init != nil || s.Tag != nil {
+					return nil, false, "switch with tag or init"
+				}
+				remaining := reach
+				out := rsNone()
+				var deflt *ast.CaseClause
+				for _, cl := range s.Body.List {
+					cc := cl.(*ast.CaseClause)
+					if cc.List == nil {
+						deflt = cc
+						continue
+					}
+					cond := rsNone()
+					for _, e := range cc.List {
+						cs, ok := pe.eval(e, arg)
+						if !ok {
+							return nil, false, "case condition not decidable"
+						}
+						cond = cond.union(cs)
+					}
+					o, ok, why := walk(cc.Body, remaining.intersect(cond))
+					if !ok {
+						return nil, false, why
+					}
+					out = out.union(o)
+					remaining = remaining.minus(cond)
+				}
+				if deflt != nil {
+					o, ok, why := walk(deflt.Body, remaining)
+					if !ok {
+						return nil, false, why
+					}
+					out = out.union(o)
+				} else {
+					out = out.union(remaining)
+				}
+				reach = out
 			default:
 				return nil, false, fmt.Sprintf("statement %T", st)
 			}
 		}
 		return reach, true, ""
 	}
-	rest, ok, why := walk(lit.Body.List, rsAll())
+	rest, ok, why := walk(body.List, rsAll())
 	if !ok {
 		return nil, false, why
 	}
